@@ -670,6 +670,19 @@ func (w *vWorld) call(e vEnv, req proto.Message, cs vCase) (int, bool) {
 			reqC = m
 		} else {
 			reqC = proto.Clone(req)
+			// proto.Clone turns nil elements of repeated message fields into empty messages; keep them nil
+			if mc, ok2 := reqC.(*pbv1.QBFTConsensusMsg); ok2 {
+				for i, j := range m.GetJustification() {
+					if j == nil {
+						mc.Justification[i] = nil
+					}
+				}
+				for i, v := range m.GetValues() {
+					if v == nil {
+						mc.Values[i] = nil
+					}
+				}
+			}
 		}
 	}
 	if m, ok := reqC.(*pbv1.QBFTConsensusMsg); ok && m != nil && m.GetMsg() != nil {
